@@ -35,11 +35,26 @@
                            and deliveries (C01);
      Channel.Discipline.dreachable_ok cc x   the same with reconnects
                            (channel_reestablish, C03) under the link discipline;
-     chan_reachable cc s   either of the two. *)
+     chan_reachable cc s   either of the two.
+
+   Event loop (AttendantModel.v, end of this file):
+     att                   the running arbitrator: decision state + log
+                           (at_arb), grace reference startTimestamp (at_start),
+                           the clock (at_now), bestHeight, the link's latest
+                           HTLC sets (at_sets);
+     aev                   AStart h | ASignal | AUpdate k l | ATick dt |
+                           ABlock h | AUser: (re)start, contract signals (link
+                           start / reconnect), commitment update from the link,
+                           time passing, blockbeat, user force close request;
+     att_run               a history of events on att_step;
+     ticks evs             total clock advance of a history;
+     ref_of evs now ref    the clock at the last AStart of evs (ref if none);
+     with_uptime e u       e with Clock.Now() - startTimestamp = u. *)
 From Coq Require Import List NArith ZArith Bool.
 From LV Require Import Arb.ActionsModel Arb.ActionsProofs.
 From LV Require Channel.Model Channel.Proofs Channel.Resync Channel.Discipline.
 From LV Require Import Arb.Shape.
+From LV Require Import Arb.AttendantModel Arb.AttendantProofs.
 Import ListNotations.
 Local Open Scope N_scope.
 
@@ -289,3 +304,48 @@ Theorem C12_no_failback_with_output_reachable :
       forall h, In h (outs (conf_of k (sets_of s p))) -> h_dust h = false ->
                 cnt (h_idx h) (f_fail ef) = O.
 Proof. exact no_failback_with_output_reachable. Qed.
+
+(* ------------------------------------------------------------------ *)
+(* The event loop around the decision (channelAttendant).  The reference of the
+   start-up grace period is a constant of a run: after ANY history of events it
+   is the clock at the last (re)start of the arbitrator; contract signals (link
+   flaps), commitment updates, blocks, user requests and the passing of time
+   leave it unchanged. *)
+Theorem C12_loop_grace_reference :
+  forall fixed e a evs a' efs,
+    att_run fixed e a evs = Some (a', efs) ->
+    at_start a' = ref_of evs (at_now a) (at_start a) /\
+    at_now a' = (at_now a + ticks evs)%Z /\
+    (forallb (fun ev => negb (is_start ev)) evs = true -> at_start a' = at_start a).
+Proof.
+  intros fixed e a evs a' efs R. destruct (att_run_ref _ _ _ _ _ _ R) as (R1 & R2).
+  split; [assumption|]. split; [assumption|].
+  intros NS. now destruct (start_constant _ _ _ _ _ _ NS R).
+Qed.
+
+(* Deadline in the running arbitrator: after any history without a restart,
+   if the arbitrator is still in StateDefault and an HTLC of the link's latest
+   local commitment is due under the time elapsed SINCE THE START of the
+   arbitrator (own payments: grace < now - start), the next block at that
+   height makes it force close, exactly once. *)
+Theorem C12_loop_deadline :
+  forall fixed e a evs a' efs h height,
+    forallb (fun ev => negb (is_start ev)) evs = true ->
+    att_run fixed e a evs = Some (a', efs) ->
+    ar_state (at_arb a') = SDefault ->
+    In h (c_local (at_sets a')) ->
+    due (with_uptime e (at_now a + ticks evs - at_start a)) h height ->
+    exists a'' ef, att_step fixed e a' (ABlock height) = Some (a'', ef) /\
+                   ar_state (at_arb a'') = SCommitmentBroadcasted /\ f_force ef = 1.
+Proof. exact loop_deadline. Qed.
+
+(* ... and a block that makes the running arbitrator force close always has a
+   witness HTLC under the up-time since the last (re)start, whatever the
+   history since the arbitrator was created. *)
+Theorem C12_loop_no_spurious :
+  forall fixed e now sets evs a' efs height a'' ef,
+    att_run fixed e (att0 now sets) evs = Some (a', efs) ->
+    att_step fixed e a' (ABlock height) = Some (a'', ef) -> f_force ef <> 0 ->
+    exists h, go_witness (with_uptime e (now + ticks evs - ref_of evs now now))
+                         (at_sets a') height h.
+Proof. exact loop_no_spurious. Qed.
